@@ -36,7 +36,7 @@ func runC04(c *kit.Ctx) {
 	r1 := c.Rule("R1", "one transaction per batch: every statement on the tx", 20)
 	r2 := c.Rule("R2", "commit/rollback typestate", 3)
 	r3 := c.Rule("R3", "acknowledge only after commit", 2)
-	r4 := c.Rule("R4", "root id written with its edge", 1)
+	r4 := c.Rule("R4", "root id written with its edge", 2)
 	r5 := c.Rule("R5", "DSN pragmas", 3)
 	r6 := c.Rule("R6", "idempotent initialisation guards", 3)
 	r7 := c.Rule("R7", "only SQLite touches the store file and its journal", 1)
@@ -488,11 +488,47 @@ func c04R4(c *kit.Ctx, m *storeModel, r4 *kit.Rule) {
 		}
 		return nil
 	}
+	var metaArg ast.Expr
+	for _, sx := range m.sql.Sites {
+		if sx.F.Root() == f && sx.HasVerb("UPDATE", "meta") && len(sx.Stmts) > 0 && contains(sx.Stmts[0].Cols, "root_id") && len(sx.Args) == 1 {
+			metaArg = sx.Args[0]
+		}
+	}
+	cacheBad := ""
+	st.OnNode = func(n ast.Node, s kit.S) []kit.S {
+		if as, ok := n.(*ast.AssignStmt); ok && m.rootField != nil {
+			for i, l := range as.Lhs {
+				if sel, ok := ast.Unparen(l).(*ast.SelectorExpr); ok && kit.ObjOf(info, sel) == types.Object(m.rootField) {
+					if metaArg != nil && i < len(as.Rhs) && !kit.SameExpr(info, as.Rhs[i], metaArg) {
+						cacheBad = "the cached root id is set to `" + f.Str(as.Rhs[i]) + "` while the store records `" + f.Str(metaArg) + "`"
+					}
+					s = s.Set("cached", "1")
+				}
+			}
+		}
+		return []kit.S{s}
+	}
 	res := c.P.Graph(f).Run(kit.NewS().Set("a:proot", "T"), st.Client())
 	if res.Overflow {
 		c.Fatalf("R4: overflow")
 	}
 	c.AddValuations(1)
+	{
+		oc := r4.Ob(f, ew.Commit, "cached root id follows the store", "every successful path that updated meta.root_id also updated the in-memory root id to the same value")
+		for _, ex := range res.Exits {
+			if ex.Return == nil || st.ReturnsNil(ex.Return, ex.State) == "nonnil" {
+				continue
+			}
+			if ex.State.Get("meta") == "1" && ex.State.Get("cached") != "1" && cacheBad == "" {
+				cacheBad = "a successful path updates meta.root_id but not the in-memory root id: until restart the instance answers root queries and the root-tombstone refusal with the old root"
+			}
+		}
+		if cacheBad != "" {
+			oc.Violation("%s", cacheBad)
+		} else {
+			oc.OK("assignment of the cached field on every such path")
+		}
+	}
 	o := r4.Ob(f, ew.Commit, "root id with root edge", "with parent == \"root\": every path that inserts the edge updates meta.root_id before Commit")
 	if len(bad) > 0 {
 		for call := range bad {
@@ -771,6 +807,7 @@ func c04R6(c *kit.Ctx, m *storeModel, r6 *kit.Rule) {
 			r6.Ob(nil, nil, tg.name, "initialiser exists").Undecided("no call site of the %s found", tg.name)
 		}
 	}
+	checkPersistedKeyInUse(c, m, keyField, r6)
 	// liveness: each initialiser is guarded by its OWN emptiness condition only.  A
 	// crash between two initialisation steps leaves a store where one piece is present
 	// and another is missing; the next start must still create the missing one.
@@ -893,4 +930,92 @@ func foldSubst(info *types.Info, e ast.Expr, subst func(ast.Expr) (constant.Valu
 		return false, false
 	}
 	return constant.BoolVal(v), true
+}
+
+// findKeyField returns the field that caches meta.jwt_key (scan destination).
+func findKeyField(m *storeModel) *types.Var {
+	var keyField *types.Var
+	for _, s := range m.sql.Sites {
+		if !s.HasVerb("SELECT", "meta") || len(s.Stmts) != 1 {
+			continue
+		}
+		for i, col := range s.Stmts[0].Cols {
+			if col != "jwt_key" {
+				continue
+			}
+			for _, call := range s.F.AllCalls(false) {
+				if kit.CallIs(s.F.Info(), call, "database/sql.(*Rows).Scan", "database/sql.(*Row).Scan") && i < len(call.Args) {
+					if u, ok := ast.Unparen(call.Args[i]).(*ast.UnaryExpr); ok && u.Op == token.AND {
+						if v, ok := kit.ObjOf(s.F.Info(), u.X).(*types.Var); ok && v.IsField() {
+							keyField = v
+						}
+					}
+				}
+			}
+		}
+	}
+	return keyField
+}
+
+// checkPersistedKeyInUse (shared by C04/R6 and C09/R8).
+func checkPersistedKeyInUse(c *kit.Ctx, m *storeModel, keyField *types.Var, r *kit.Rule) {
+	// the signing key used by the running instance is the one that was persisted:
+	// the value bound to UPDATE meta SET jwt_key is the in-memory key field, or a
+	// local that is also stored into that field on every successful path.
+	for _, f := range c.P.Funcs("store") {
+		if f.Body == nil || f.Lit != nil {
+			continue
+		}
+		var site *kit.SQLSite
+		for _, call := range f.AllCalls(false) {
+			if sx := m.siteOf(call); sx != nil && sx.HasVerb("UPDATE", "meta") && len(sx.Stmts) > 0 && contains(sx.Stmts[0].Cols, "jwt_key") {
+				site = sx
+			}
+		}
+		if site == nil || len(site.Args) < 1 {
+			continue
+		}
+		info := f.Info()
+		o := r.Ob(f, site.Call, "persisted key is the key in use", "the value stored as meta.jwt_key is the in-memory signing key of this instance")
+		arg := ast.Unparen(site.Args[0])
+		if sel, ok := arg.(*ast.SelectorExpr); ok && kit.ObjOf(info, sel) == types.Object(keyField) {
+			o.OK("bound from the key field itself")
+			continue
+		}
+		v := kit.ObjOf(info, arg)
+		if v == nil {
+			o.Undecided("bound value `%s` is neither the key field nor a local", f.Str(arg))
+			continue
+		}
+		st := &kit.Std{F: f}
+		st.OnNode = func(n ast.Node, s kit.S) []kit.S {
+			if as, ok := n.(*ast.AssignStmt); ok {
+				for i, l := range as.Lhs {
+					if sel, ok := ast.Unparen(l).(*ast.SelectorExpr); ok && kit.ObjOf(info, sel) == types.Object(keyField) && i < len(as.Rhs) {
+						if kit.ObjOf(info, as.Rhs[i]) == v {
+							s = s.Set("kf", "1")
+						} else {
+							s = s.Set("kf", "other")
+						}
+					}
+				}
+			}
+			return []kit.S{s}
+		}
+		res := c.P.Graph(f).Run(kit.NewS(), st.Client())
+		bad := false
+		for _, ex := range res.Exits {
+			if ex.Return == nil || st.ReturnsNil(ex.Return, ex.State) == "nonnil" {
+				continue
+			}
+			if ex.State.Get("kf") != "1" {
+				bad = true
+			}
+		}
+		if bad {
+			o.Violation("%s persists `%s` as the signing key but can return successfully without making it the in-memory key: until the next restart the instance signs and verifies tokens with a different (possibly empty) key than the one it stored", f.Name, f.Str(arg))
+		} else {
+			o.OK("local `%s` is stored into the key field on every successful path", f.Str(arg))
+		}
+	}
 }
